@@ -131,6 +131,9 @@ def make_args(spec):
         return (SlowPickle(a[1]),)
     if a[0] == "blob":
         return (b"x" * int(a[1]),)
+    if a[0] == "too_large":
+        # picklable, but above the size the (configured) transport accepts: fails in send_bytes, after pickling
+        return (b"z" * int(a[1]),)
     if a[0] == "blob_then_bad":
         # a large picklable part first (the pickler flushes it), then an object that fails to pickle
         return (b"y" * int(a[1]), list(range(2000)), BadPickle(a[2]))
@@ -543,6 +546,8 @@ def expected(spec, tid):
             return ("unsendable", "RuntimeError" if a[2] == "struct.error" else "PicklingError")
         if a[0] == "bad_unpickle":
             return ("special", "breaks_pool")
+        if a[0] == "too_large":
+            return ("unsendable", "RuntimeError")
     k = spec["k"]
     if k == "ok":
         return ("value", ["ok", tid, spec.get("x")])
